@@ -84,6 +84,10 @@ pub struct ExecCfg {
     pub link_frag_pct: u32,
     /// consecutive no-progress steps tolerated before the livelock oracle fires
     pub livelock_limit: u64,
+    /// C20: percent chance, at each lock / atomic yield point inside a connection task's
+    /// poll, of running a whole poll of an application task right there (as another thread
+    /// would between two of the connection's critical sections)
+    pub inject_pct: u32,
 }
 
 impl Default for ExecCfg {
@@ -94,6 +98,7 @@ impl Default for ExecCfg {
             clock_jump_pct: 0,
             link_frag_pct: 0,
             livelock_limit: 20_000,
+            inject_pct: 0,
         }
     }
 }
@@ -165,6 +170,9 @@ pub struct Exec {
     no_progress_steps: u64,
     pub max_no_progress: u64,
     pub current_task: Option<usize>,
+    pub injecting: bool,
+    pub injected: u64,
+    pub yield_points: u64,
 }
 
 impl Exec {
@@ -188,6 +196,9 @@ impl Exec {
             no_progress_steps: 0,
             max_no_progress: 0,
             current_task: None,
+            injecting: false,
+            injected: 0,
+            yield_points: 0,
         }
     }
 
@@ -344,7 +355,17 @@ impl Exec {
             Some(f) => f,
             None => return,
         };
+        let inject = self.cfg.inject_pct > 0 && self.tasks[id].name.ends_with(":conn") && !self.injecting;
+        if inject {
+            // SAFETY: single-threaded; the hook only runs while this frame is alive and only
+            // touches other tasks' slots (this task's future is taken out of its slot).
+            let me: *mut Exec = self;
+            h2::verif::set_hook(Some(Box::new(move |site| unsafe { (*me).injection_point(id, site) })));
+        }
         let r = catch_unwind(AssertUnwindSafe(|| fut.as_mut().poll(&mut cx)));
+        if inject {
+            h2::verif::set_hook(None);
+        }
         self.current_task = None;
         match r {
             Ok(Poll::Ready(())) => {
@@ -365,6 +386,42 @@ impl Exec {
                 std::mem::forget(fut);
             }
         }
+    }
+
+    /// Called from h2's yield hook (before an un-nested lock acquisition or an atomic
+    /// operation) while connection task `host` is being polled.
+    fn injection_point(&mut self, host: usize, site: h2::verif::Site) {
+        self.yield_points += 1;
+        if !self.panics.is_empty() || !self.tape.chance(Lane::Inject, self.cfg.inject_pct, 100) {
+            return;
+        }
+        // candidates: woken application tasks (never a connection task, never the host)
+        let cands: Vec<usize> = {
+            let q = self.queue.lock().unwrap();
+            q.iter().copied().filter(|i| *i != host && self.tasks[*i].fut.is_some() && !self.tasks[*i].name.ends_with(":conn") && !self.tasks[*i].name.starts_with("p:")).collect()
+        };
+        if cands.is_empty() {
+            return;
+        }
+        let pick = cands[self.tape.draw(Lane::Inject, cands.len() as u32) as usize];
+        self.queue.lock().unwrap().retain(|x| *x != pick);
+        self.injecting = true;
+        self.injected += 1;
+        let code = 2_000_000 + pick as u64 * 8 + site as u64;
+        self.sched_hash = (self.sched_hash ^ code).wrapping_mul(0x100000001b3);
+        self.faults.hit("inject_op");
+        let saved = self.current_task;
+        let saved_label = CURRENT_TASK.with(|c| c.borrow().clone());
+        if TRACE_ON.load(std::sync::atomic::Ordering::Relaxed) {
+            eprintln!("[sim] >>> injecting poll of {} at {:?} inside {}", self.tasks[pick].name, site, saved_label);
+        }
+        self.poll_task(pick);
+        if TRACE_ON.load(std::sync::atomic::Ordering::Relaxed) {
+            eprintln!("[sim] <<< back in {}", saved_label);
+        }
+        CURRENT_TASK.with(|c| *c.borrow_mut() = saved_label);
+        self.current_task = saved;
+        self.injecting = false;
     }
 
     /// Run until nothing is runnable (or a budget trips). `after` is called after every step.
